@@ -282,12 +282,22 @@ func (x *Exec) typeAssert(v Iface, at types.Type, commaOk bool) Val {
 
 func (x *Exec) sliceOp(fr *frame, in *ssa.Slice) Val {
 	b := x.get(fr, in.X)
+	limit := 0
 	ci := func(v ssa.Value, def int) int {
 		if v == nil {
 			return def
 		}
 		i := x.subst(x.get(fr, v).(Int))
 		if !i.conc() {
+			// symbolic bound (e.g. an if-converted index): out of range is the
+			// run-time panic (obligation), in-range values are case-split
+			i64 := ext(i, 64, i.S)
+			x.mustNot("(or (bvslt "+i64.term()+" (_ bv0 64)) (bvsgt "+i64.term()+" "+bvc(64, uint64(limit))+"))", "slice-oob", "")
+			for k := 0; k <= limit; k++ {
+				if x.truth(x.binInt(token.EQL, i64, mkInt(int64(k))).(Bool)) {
+					return k
+				}
+			}
 			panic(unsupported{"symbolic slice bound at " + x.where()})
 		}
 		return int(i.sval())
@@ -297,12 +307,14 @@ func (x *Exec) sliceOp(fr *frame, in *ssa.Slice) Val {
 		if b.Op != nil {
 			x.needContent(b, "slice")
 		}
+		limit = len(b.B)
 		lo, hi := ci(in.Low, 0), ci(in.High, len(b.B))
 		if lo < 0 || hi > len(b.B) || lo > hi {
 			x.fail("slice-oob", "")
 		}
 		return Str{B: b.B[lo:hi:hi]}
 	case Slice:
+		limit = b.Cap
 		lo, hi := ci(in.Low, 0), ci(in.High, b.Len)
 		mx := ci(in.Max, b.Cap)
 		if lo < 0 || hi > b.Cap || lo > hi || mx > b.Cap || hi > mx {
@@ -317,6 +329,7 @@ func (x *Exec) sliceOp(fr *frame, in *ssa.Slice) Val {
 			x.fail("nil-deref", "")
 		}
 		n := len(x.load(b).(Array).E)
+		limit = n
 		lo, hi := ci(in.Low, 0), ci(in.High, n)
 		mx := ci(in.Max, n)
 		if lo < 0 || hi > n || lo > hi || hi > mx || mx > n {
